@@ -14,28 +14,86 @@ pub use crate::checks3::{C16, C20};
 
 pub struct C15;
 
+/// Small builder for the C15 family.
+struct Fam {
+    w: World,
+    next_name: u32,
+    next_s: u32,
+    next_vs: u32,
+    next_union: u32,
+}
+
+impl Fam {
+    fn vs(&mut self, name: u32, mut matches: Vec<u32>) -> u32 {
+        matches.sort();
+        matches.dedup();
+        let id = self.next_vs;
+        self.next_vs += 1;
+        self.w.version_sets.insert(id, VersionSet { name, matches });
+        id
+    }
+    /// new package with one candidate per entry of `deps`; returns (name, candidates)
+    fn pkg(&mut self, deps: Vec<Deps>, hint: Hint) -> (u32, Vec<u32>) {
+        let name = self.next_name;
+        self.next_name += 1;
+        let mut cands = Vec::new();
+        for d in deps {
+            let s = self.next_s;
+            self.next_s += 1;
+            self.w.solvables.insert(s, Solvable { name, deps: d });
+            cands.push(s);
+        }
+        self.w.packages.insert(
+            name,
+            Package {
+                candidates: cands.clone(),
+                rank: cands.clone(),
+                favored: None,
+                locked: None,
+                excluded: vec![],
+                hint,
+                missing: false,
+            },
+        );
+        (name, cands)
+    }
+    fn union(&mut self, members: Vec<u32>) -> Req {
+        let id = self.next_union;
+        self.next_union += 1;
+        self.w.unions.insert(id, members);
+        Req::Union(id)
+    }
+}
+
+fn known(requirements: Vec<Req>, constrains: Vec<u32>) -> Deps {
+    Deps::Known {
+        requirements,
+        constrains,
+    }
+}
+
 /// World family: package 0 with n candidates revealed through version sets that all contain the
-/// anchor; revealer packages 1.. (one candidate each) carry some of the revealing requirements.
+/// anchor. The revealing requirements sit at the root, inside revealer solvables, or behind unions whose
+/// other alternative is dead; an optional decoy package temporarily constrains package 0 and is
+/// abandoned after a conflict, so candidates are also discovered while they are assigned false.
+/// Returns (world, root requirements, exact version set per candidate index).
 fn c15_world(rng: &mut Rng, n: usize, anchor_idx: usize) -> (World, Vec<Req>, Vec<u32>) {
-    let mut w = World::default();
+    let mut f = Fam {
+        w: World::default(),
+        next_name: 1,
+        next_s: n as u32,
+        next_vs: 0,
+        next_union: 0,
+    };
     let cands: Vec<u32> = (0..n as u32).collect();
     let mut order = cands.clone();
     rng.shuffle(&mut order);
     let mut rank = cands.clone();
     rng.shuffle(&mut rank);
     for &c in &cands {
-        w.solvables.insert(
-            c,
-            Solvable {
-                name: 0,
-                deps: Deps::Known {
-                    requirements: vec![],
-                    constrains: vec![],
-                },
-            },
-        );
+        f.w.solvables.insert(c, Solvable { name: 0, deps: known(vec![], vec![]) });
     }
-    w.packages.insert(
+    f.w.packages.insert(
         0,
         Package {
             candidates: order.clone(),
@@ -51,6 +109,16 @@ fn c15_world(rng: &mut Rng, n: usize, anchor_idx: usize) -> (World, Vec<Req>, Ve
         },
     );
     let anchor = cands[anchor_idx];
+    // a dead alternative for unions: a package whose only candidate has Unknown dependencies, or a version
+    // set that matches nothing
+    let dead_vs = if rng.chance(1, 2) {
+        let (dn, dc) = f.pkg(vec![Deps::Unknown(0)], Hint::None);
+        f.vs(dn, dc)
+    } else {
+        let (dn, _) = f.pkg(vec![known(vec![], vec![])], Hint::None);
+        f.vs(dn, vec![])
+    };
+    let use_unions = rng.chance(1, 3);
     // covering version sets, each containing the anchor
     let mut groups: Vec<Vec<u32>> = Vec::new();
     let mut covered: BTreeSet<u32> = BTreeSet::new();
@@ -59,37 +127,26 @@ fn c15_world(rng: &mut Rng, n: usize, anchor_idx: usize) -> (World, Vec<Req>, Ve
     while covered.len() < n {
         let mut g: BTreeSet<u32> = BTreeSet::new();
         g.insert(anchor);
+        let missing: Vec<u32> = cands.iter().copied().filter(|c| !covered.contains(c)).collect();
+        g.insert(*rng.pick(&missing));
         match style {
-            0 => {
-                // singletons + anchor
-                let missing: Vec<u32> = cands.iter().copied().filter(|c| !covered.contains(c)).collect();
-                g.insert(*rng.pick(&missing));
-            }
+            0 => {}
             1 => {
-                // ranges in candidate-list order
                 let a = rng.below(n);
                 let span = rng.range(1, 8);
                 let b = rng.range(a, (a + span).min(n - 1));
                 for x in &order[a..=b] {
                     g.insert(*x);
                 }
-                let missing: Vec<u32> = cands.iter().copied().filter(|c| !covered.contains(c)).collect();
-                g.insert(*rng.pick(&missing));
             }
             2 => {
-                // random overlapping subsets
                 for c in &cands {
                     if rng.chance(1, 3) {
                         g.insert(*c);
                     }
                 }
-                let missing: Vec<u32> = cands.iter().copied().filter(|c| !covered.contains(c)).collect();
-                g.insert(*rng.pick(&missing));
             }
-            _ => {
-                // the full set
-                g.extend(cands.iter().copied());
-            }
+            _ => g.extend(cands.iter().copied()),
         }
         covered.extend(g.iter().copied());
         groups.push(g.into_iter().collect());
@@ -98,61 +155,90 @@ fn c15_world(rng: &mut Rng, n: usize, anchor_idx: usize) -> (World, Vec<Req>, Ve
         groups.push(cands.clone());
     }
     rng.shuffle(&mut groups);
-    let mut next_vs = 0u32;
     let mut root_reqs: Vec<Req> = Vec::new();
-    let mut next_name = 1u32;
-    let mut next_s = n as u32;
-    let mut vs_ids = Vec::new();
-    for g in groups {
-        let id = next_vs;
-        next_vs += 1;
-        w.version_sets.insert(id, VersionSet { name: 0, matches: g });
-        vs_ids.push(id);
-        if rng.chance(1, 2) {
-            root_reqs.push(Req::Single(id));
+    // wrap a version set into a requirement, possibly a union with the dead alternative
+    let wrap = |f: &mut Fam, rng: &mut Rng, vs: u32| -> Req {
+        if use_unions && rng.chance(1, 2) {
+            if rng.chance(1, 2) {
+                f.union(vec![dead_vs, vs])
+            } else {
+                f.union(vec![vs, dead_vs])
+            }
         } else {
-            // revealer package
-            let name = next_name;
-            next_name += 1;
-            let s = next_s;
-            next_s += 1;
-            w.solvables.insert(
-                s,
-                Solvable {
-                    name,
-                    deps: Deps::Known {
-                        requirements: vec![Req::Single(id)],
-                        constrains: vec![],
-                    },
-                },
-            );
-            w.packages.insert(
-                name,
-                Package {
-                    candidates: vec![s],
-                    rank: vec![s],
-                    favored: None,
-                    locked: None,
-                    excluded: vec![],
-                    hint: if rng.chance(1, 3) { Hint::All } else { Hint::None },
-                    missing: false,
-                },
-            );
-            let rv = next_vs;
-            next_vs += 1;
-            w.version_sets.insert(rv, VersionSet { name, matches: vec![s] });
-            root_reqs.push(Req::Single(rv));
+            Req::Single(vs)
+        }
+    };
+    // put a requirement at the root or behind a (chain of) revealer solvable(s)
+    let place = |f: &mut Fam, rng: &mut Rng, root_reqs: &mut Vec<Req>, r: Req| {
+        let mut r = r;
+        let depth = match rng.below(4) {
+            0 | 1 => 0,
+            2 => 1,
+            _ => 2,
+        };
+        for _ in 0..depth {
+            let hint = if rng.chance(1, 3) { Hint::All } else { Hint::None };
+            let (name, c) = f.pkg(vec![known(vec![r], vec![])], hint);
+            r = Req::Single(f.vs(name, c));
+        }
+        root_reqs.push(r);
+    };
+    // optional decoy: t1 (preferred) constrains package 0 to a subset and is abandoned after a conflict,
+    // while it is selected further revealing requirements are encoded
+    let decoy = n >= 2 && rng.chance(2, 5);
+    let mut decoy_reveal: Vec<Req> = Vec::new();
+    for g in groups {
+        let id = f.vs(0, g);
+        let r = wrap(&mut f, rng, id);
+        if decoy && rng.chance(1, 2) {
+            decoy_reveal.push(r);
+        } else {
+            place(&mut f, rng, &mut root_reqs, r);
         }
     }
-    // exact version sets for every candidate
+    if decoy {
+        let mut subset: Vec<u32> = cands.iter().copied().filter(|_| rng.chance(1, 2)).collect();
+        subset.push(anchor);
+        let keep = f.vs(0, subset);
+        // T = {t1, t2}; Z = {z1} with z1 constraining T to t2; W = {w1} requiring the decoy reveals and Z
+        let t_name = f.next_name;
+        let t1 = f.next_s;
+        let t2 = f.next_s + 1;
+        // reserve ids for T by creating it last; create Z and W first with forward references
+        f.next_name += 1;
+        f.next_s += 2;
+        let only_t2 = f.vs(t_name, vec![t2]);
+        let (z_name, zc) = f.pkg(vec![known(vec![], vec![only_t2])], Hint::None);
+        let z_vs = f.vs(z_name, zc);
+        let mut w_reqs = decoy_reveal.clone();
+        w_reqs.push(Req::Single(z_vs));
+        rng.shuffle(&mut w_reqs);
+        let (w_name, wc) = f.pkg(vec![known(w_reqs, vec![])], if rng.chance(1, 3) { Hint::All } else { Hint::None });
+        let w_vs = f.vs(w_name, wc);
+        f.w.solvables.insert(t1, Solvable { name: t_name, deps: known(vec![Req::Single(w_vs)], vec![keep]) });
+        f.w.solvables.insert(t2, Solvable { name: t_name, deps: known(decoy_reveal.clone(), vec![]) });
+        f.w.packages.insert(
+            t_name,
+            Package {
+                candidates: vec![t1, t2],
+                rank: vec![t1, t2],
+                favored: None,
+                locked: None,
+                excluded: vec![],
+                hint: Hint::None,
+                missing: false,
+            },
+        );
+        let t_vs = f.vs(t_name, vec![t1, t2]);
+        let pos = rng.below(root_reqs.len() + 1);
+        root_reqs.insert(pos, Req::Single(t_vs));
+    }
+    // exact version sets for every candidate (the caller adds the ones it needs to the problem)
     let mut exact = Vec::new();
     for &c in &cands {
-        let id = next_vs;
-        next_vs += 1;
-        w.version_sets.insert(id, VersionSet { name: 0, matches: vec![c] });
-        exact.push(id);
+        exact.push(f.vs(0, vec![c]));
     }
-    (w, root_reqs, exact)
+    (f.w, root_reqs, exact)
 }
 
 impl Property for C15 {
@@ -207,12 +293,38 @@ impl Property for C15 {
             // the same covering structure for all cases of a seed, anchored at i
             let mut wr = Rng::new(world_seed);
             let (w, mut reqs, exact) = c15_world(&mut wr, n, i);
+            let mut w = w;
             let mut pr = Rng::new(r.next_u64());
-            let pos = pr.below(reqs.len() + 1);
-            reqs.insert(pos, Req::Single(exact[i]));
+            let mut wanted = vec![exact[i]];
             if let Some(j) = j {
+                wanted.push(exact[j]);
+            }
+            for e in wanted {
+                // at the root, or behind a single-candidate revealer the root requires
+                let req = if pr.chance(1, 3) {
+                    let name = w.packages.keys().max().unwrap() + 1;
+                    let s = w.solvables.keys().max().unwrap() + 1;
+                    let vs = w.version_sets.keys().max().unwrap() + 1;
+                    w.solvables.insert(s, Solvable { name, deps: known(vec![Req::Single(e)], vec![]) });
+                    w.packages.insert(
+                        name,
+                        Package {
+                            candidates: vec![s],
+                            rank: vec![s],
+                            favored: None,
+                            locked: None,
+                            excluded: vec![],
+                            hint: if pr.chance(1, 3) { Hint::All } else { Hint::None },
+                            missing: false,
+                        },
+                    );
+                    w.version_sets.insert(vs, VersionSet { name, matches: vec![s] });
+                    Req::Single(vs)
+                } else {
+                    Req::Single(e)
+                };
                 let pos = pr.below(reqs.len() + 1);
-                reqs.insert(pos, Req::Single(exact[j]));
+                reqs.insert(pos, req);
             }
             let mut sc = Scenario::basic(
                 w,
@@ -231,20 +343,6 @@ impl Property for C15 {
     fn judge(&self, sc: &Scenario) -> Verdict {
         let w = &sc.world;
         let p = &sc.solves[0].problem;
-        // exact requirements: root Single requirements whose version set matches exactly one candidate
-        let mut exact: Vec<(u32, u32)> = Vec::new(); // (name, solvable)
-        for r in &p.requirements {
-            if let Req::Single(vs) = r {
-                let m = w.matching(*vs);
-                if m.len() == 1 && w.version_sets[vs].matches.len() == 1 {
-                    exact.push((w.vs_name(*vs), m[0]));
-                }
-            }
-        }
-        let pair = exact
-            .iter()
-            .enumerate()
-            .find_map(|(i, a)| exact[i + 1..].iter().find(|b| b.0 == a.0 && b.1 != a.1).map(|b| (*a, *b)));
         let rec = execute(sc);
         let mut v = base_verdict(sc, &rec);
         let o = &rec.outcomes[0];
@@ -252,41 +350,32 @@ impl Property for C15 {
             v.aborted_other = true;
             return v;
         }
-        v.evaluated = true;
         v.nontrivial = w.packages.values().any(|p| p.candidates.len() >= 3);
-        match pair {
-            Some((a, b)) => {
+        // Whether the problem requires two different candidates of one package (directly, through revealer
+        // solvables or through unions whose other alternative is dead) is decided by the reference.
+        match ref_verdict(w, p) {
+            None => v.inconclusive = true,
+            Some(false) => {
+                v.evaluated = true;
                 if let Outcome::Ok(s) = o {
-                    v.violate("pair-accepted", format!("problem requires exactly {} and exactly {} of package {} but solve returned {s:?}", a.1, b.1, a.0));
+                    let mut per: std::collections::BTreeMap<u32, Vec<u32>> = Default::default();
+                    for x in s {
+                        per.entry(w.solvable_name(*x)).or_default().push(*x);
+                    }
+                    let multi: Vec<&Vec<u32>> = per.values().filter(|c| c.len() > 1).collect();
+                    v.violate("pair-accepted", format!("the problem cannot be satisfied with one solvable per package, but solve returned {s:?} (several from one package: {multi:?})"));
                 }
             }
-            None => {
-                if exact.is_empty() {
-                    v.evaluated = false;
-                    v.skipped_pre = true;
-                    return v;
-                }
-                match ref_verdict(w, p) {
-                    Some(true) => match o {
-                        Outcome::Ok(s) => {
-                            for (name, x) in &exact {
-                                let inst: Vec<u32> = s.iter().copied().filter(|c| w.solvable_name(*c) == *name).collect();
-                                if inst != vec![*x] {
-                                    v.violate("single-wrong", format!("problem requires exactly {x} of package {name}; installed from that package: {inst:?}"));
-                                }
-                            }
+            Some(true) => {
+                v.evaluated = true;
+                match o {
+                    Outcome::Ok(s) => {
+                        if let Some((cat, text)) = crate::reference::validity_errors(w, p, s).first() {
+                            v.violate(format!("single-wrong:{cat}"), format!("returned {s:?}: {text}"));
                         }
-                        Outcome::Unsolvable(_) => v.violate("single-rejected", format!("requiring exactly one candidate {:?} is satisfiable but solve says Unsolvable", exact)),
-                        _ => {}
-                    },
-                    Some(false) => {
-                        v.evaluated = false;
-                        v.skipped_pre = true;
                     }
-                    None => {
-                        v.evaluated = false;
-                        v.inconclusive = true;
-                    }
+                    Outcome::Unsolvable(_) => v.violate("single-rejected", "requiring exactly one candidate of the package is satisfiable but solve says Unsolvable"),
+                    _ => {}
                 }
             }
         }
